@@ -2,14 +2,19 @@
 import random
 from .. import core, sysgen, reader, gen
 
-MODULES = ['DsdVerif.Props.C16']
-GEN_FILES = ['Symbols', 'Grammars']
+MODULES = ['DsdVerif.Props.C16', 'DsdVerif.Props.PyReaderFns']
+GEN_FILES = ['Symbols', 'Grammars', 'PyReaderFns', 'GrammarUnits']
 THEOREMS = ['Dsd.Symbols.no_unresolved_global', 'Dsd.C16.reader_never_faults', 'Dsd.C16.readLine_never_faults_fresh',
             'Dsd.C16.typed_lineOK', 'Dsd.C16.resolveKernel_ok', 'Dsd.C16.resolveKernel_total',
             'Dsd.C16.pil_lines_typed', 'Dsd.C16.read_text_faults_only_recursion', 'Dsd.C16.read_text_never_faults',
             'Dsd.C16.ssw_lines_shape', 'Dsd.PP.run_shape', 'Dsd.PP.parseDoc_shape',
             'Dsd.C16.read_short_text_never_faults', 'Dsd.C16.kernel_pattern_lt_length', 'Dsd.C16F.readLineFull_eq', 'Dsd.C16F.readDocFull_eq',
             'Dsd.C16F.typed_fullLine', 'Dsd.C16F.Ex.finding_empty_composite']
+# read_reaction as written in the source (translator/pyreaderfn.py -> Gen/PyReaderFns.lean): equal to the reader model on typed lines, an ignored
+# reaction returns six Nones and never raises
+THEOREMS += ['Dsd.PyReaderFns.' + t for t in [
+    'py_read_reaction_eq_model', 'py_read_reaction_short_line', 'model_differs_on_str_info', 'py_accepts_str_rate', 'py_read_reaction_outcome',
+    'py_ignored_reaction_six_nones', 'py_accepted_reaction', 'py_ignored_reaction_survives', 'py_no_info_box_six_nones']]
 ASSUMPTIONS = [
     'static part: the global-name reference table of every function / method / lambda / comprehension / class body of the package is '
     'regenerated with symtable by translator/gen.py; a name bound anywhere at module level (incl. inside if/try, via import or import *) '
@@ -48,6 +53,7 @@ MANIFEST = {
             'offending function to obtain a concrete NameError replay.',
     'note': 'Python name resolution is modelled by symtable; exception kinds outside the modelled partial operations are covered by '
             'correspondence and exploration only.',
+    'source_derived': "read_reaction is transcribed from the working tree (translator/pyreaderfn.py -> Gen/PyReaderFns.lean; token trees with Python's duck typing - x[i] of a str is a character -, float(s) kept as the literal): PyReaderFns.py_read_reaction_eq_model (equal to the reader model on typed lines, same exception kind), py_ignored_reaction_six_nones / py_ignored_reaction_survives / py_no_info_box_six_nones (a reaction without rate, without type or with a type outside RTYPES returns six Nones and never raises - the clause 'lines announced as ignored do not abort the read' for the code as written), with two kernel-checked witnesses that the typing hypothesis is needed; streams read_reaction.source-derived / read_reaction.model.",
     'technique': 'Lean 4 decide over a symbol table regenerated from source + reader model with explicit fault outcomes; fault-injection correspondence',
 }
 
@@ -243,6 +249,9 @@ def run(res, proof):
         seen.add(key)
         res.violation(key, {'text': small, 'config': cfg}, 'err ' + kind, 'the result dictionary, a parse error or a declared error')
     gc.unfreeze()
+    import random as _r
+    from .pyreaderfn_stream import stream_read_reaction
+    stream_read_reaction(res, proof, _r.Random(res.seed * 5915587 + 1416), res.tier == 'quick')     # read_reaction as translated from the working tree
     for (lab, txt) in labels[::max(1, len(labels) // 8)]:
         res.sample({'label': lab, 'text': txt})
     res.rule = ('%d generated valid systems, each with single-fault corruptions of 15 kinds (dropped / undeclared object, conflicting '
